@@ -16,7 +16,7 @@
                         and no meta.json is published while another live contender is between reading the dead
                         authority's meta and renaming it (pc StMetaRename).  The three known findings S13 / S13b /
                         S13c are exactly the schedules excluded by it (c18_witnesses_are_overlaps). *)
-From RipV Require Import Base.Prelude Model.Authority Proofs.AuthorityInv Proofs.AuthorityLive Proofs.AuthorityProofs.
+From RipV Require Import Base.Prelude Model.Authority Proofs.AuthorityInv Proofs.AuthorityLive Proofs.AuthorityTake Proofs.AuthorityProofs.
 
 (* ---- exclusive create: no dead leftovers (no files at all), ANY number of contenders, ANY crash-free schedule *)
 Theorem c18_mutex_no_leftovers : forall (ps : list proc) (es : list event),
@@ -38,6 +38,43 @@ Theorem c18_mutex_no_dead_leftovers : forall (l : lockf) (m : metaf) (ps : list 
   /\ s_took_lock (run true (init l m ps) es) = false /\ s_took_meta (run true (init l m ps) es) = false.
 Proof. exact mutex_no_dead_leftovers. Qed.
 Print Assumptions c18_mutex_no_dead_leftovers.
+
+(* ---- ALL schedules, every leftover state, any number of contenders, crashes anywhere, timer assumption or not:
+   mutual exclusion can only be lost by renaming / removing the lock file of another LIVE pid — as long as that has not
+   happened there is at most one authority and the lock carries its record *)
+Theorem c18_two_authorities_only_by_taking_a_live_lock :
+  forall (ag : bool) (l : lockf) (m : metaf) (ps : list proc) (es : list event),
+  init_ok l m ps ->
+  s_took_lock (run ag (init l m ps) es) = false ->
+  (length (holders (run ag (init l m ps) es)) <= 1)%nat
+  /\ (forall p, In p (holders (run ag (init l m ps) es)) -> lock_pid (s_lock (run ag (init l m ps) es)) = Some p).
+Proof. exact two_authorities_only_by_taking. Qed.
+Print Assumptions c18_two_authorities_only_by_taking_a_live_lock.
+
+Example c18_not_taken_example :
+  s_took_lock (run true s13c_init serial_sched) = false /\ holders (run true s13c_init serial_sched) = [1]
+  /\ s_took_lock (run false empty_init grace_sched) = true.
+Proof. exact not_taken_example. Qed.
+
+(* ---- "a live authority's lock is never taken", unconditionally: while the authority b that holds the lock lives (no
+   event of process 0: it neither crashes nor shuts down), NO schedule of ANY contenders, crashing wherever they like,
+   with any leftover meta.json, timer assumption or not, changes lock.json or meta.json, and nobody else ever holds *)
+Theorem c18_live_authority_never_disturbed :
+  forall (ag : bool) (b : pid) (m : metaf) (cs : list proc) (es : list event),
+  (forall q, In q cs -> contender q) ->
+  (forall e, In e es -> ev_idx e <> 0%nat) ->
+  s_lock (run ag (init (LRec b) m (serving b :: cs)) es) = LRec b
+  /\ s_meta (run ag (init (LRec b) m (serving b :: cs)) es) = m
+  /\ holders (run ag (init (LRec b) m (serving b :: cs)) es) = [b]
+  /\ s_took_lock (run ag (init (LRec b) m (serving b :: cs)) es) = false
+  /\ s_took_meta (run ag (init (LRec b) m (serving b :: cs)) es) = false.
+Proof. exact live_authority_never_disturbed. Qed.
+Print Assumptions c18_live_authority_never_disturbed.
+
+Example c18_undisturbed_example :
+  (forall q, In q [fresh 1 DServer; fresh 2 DClient] -> contender q)
+  /\ (forall e, In e bystander_sched -> ev_idx e <> 0%nat).
+Proof. exact undisturbed_example. Qed.
 
 (* ---- every leftover state, any number of contenders, crashes anywhere, every schedule whose cleanups do not overlap
    another contender's acquire: at most one holder, and the lock file carries the holder's record *)
